@@ -15,7 +15,7 @@ from typing import Dict, List, Tuple
 
 from .core import AnalysisError, Report, Tree
 
-COPY = ["gtwrap", "scripts", "matlab.h", "templates", "tests/pybind_wrapper.tpl"]
+COPY = ["gtwrap", "scripts", "matlab.h", "templates", "tests/pybind_wrapper.tpl", "cmake"]
 
 
 def scratch_base() -> str:
